@@ -14,7 +14,8 @@ The statement at full strength (`C16_full`) is false of the code: `C16_full_refu
 Proved: the `_partial` theorems with the remaining side conditions `SchemaOK` /
 `ValueOK` spelled out; `schema_total` / `state_validates_total` (the schema and the
 serialized state exist — the `… = .ok …` hypotheses of the other theorems are met);
-`out_of_bounds_rejected` and `number_schema_agrees` / `integer_schema_agrees` for every
+`safe_schema_agrees` / `safe_schema_total` / `class_safe_schema_agrees` (`safe=True` refuses or
+returns the same schema); `out_of_bounds_rejected` and `number_schema_agrees` / `integer_schema_agrees` for every
 finite JSON number and every declaration whose bounds can be met at all (`Bounds.sane`).
 
 Not covered by any theorem (harness only): the difference between class-level and
@@ -496,6 +497,52 @@ theorem integer_schema_agrees (p : Param) (b : Bounds) (hc : p.cfg = .integer b)
     simp only [Param.baseSchema, hc, Except.ok.injEq] at hs0; subst hs0
     have hv := validate_numberSchema "integer" b (.int n) (Fl.ofInt n) rfl rfl hsane
     cases p.schemaNullable <;> simp [validate_nullable, hv, hasType]
+
+/-! ## `schema(safe=True)` -/
+
+/-- **`schema(safe=True)` may refuse, never answer differently**: when it returns for a parameter,
+it returns the entry `schema()` returns (so every theorem above applies to it), and the type is not
+one of the refused ones (Dict, List without item type, Selector with an object whose type has no
+JSON literal type). -/
+theorem safe_schema_agrees (p : Param) (s : Json) (h : p.schemaEntrySafe = .ok s) :
+    p.schemaEntry = .ok s ∧ p.cfg.safeRefuses = false := by
+  unfold Param.schemaEntrySafe at h
+  split at h
+  · simp at h
+  · rename_i hr; exact ⟨h, by simpa using hr⟩
+
+/-- and it does return for every declarable parameter of a type that is not refused -/
+theorem safe_schema_total (p : Param) (hd : Declarable p = true) (hs : p.cfg.safeRefuses = false) :
+    ∃ s, p.schemaEntrySafe = .ok s := by
+  obtain ⟨s, h⟩ := schemaEntry_total p hd
+  exact ⟨s, by simp [Param.schemaEntrySafe, hs, h]⟩
+
+/-- object level: `Cls.param.schema(safe=True)`, when it returns, is `Cls.param.schema()` -/
+theorem class_safe_schema_agrees (subset : Option (List String)) : ∀ (ps : List Param) (entries : List (String × Json)),
+    schemaEntriesSafe subset ps = .ok entries → schemaEntries subset ps = .ok entries
+  | [], entries, h => by simpa [schemaEntriesSafe, schemaEntries] using h
+  | p :: ps, entries, h => by
+    simp only [schemaEntriesSafe] at h
+    simp only [schemaEntries]
+    split at h
+    · rename_i hsub
+      simp only [hsub, if_true]
+      exact class_safe_schema_agrees subset ps entries h
+    · rename_i hsub
+      simp only [hsub]
+      split at h
+      · simp at h
+      · rename_i s hs
+        split at h
+        · simp at h
+        · rename_i r hr
+          simp only [Except.ok.injEq] at h; subst h
+          simp [(safe_schema_agrees p s hs).1, class_safe_schema_agrees subset ps r hr]
+
+/-- non-vacuity: a Dict is refused, an Integer is answered -/
+example : (⟨"d", .dict, .undef, some (.dict []), none, "D"⟩ : Param).schemaEntrySafe = .error .unsafeSer := rfl
+example : (⟨"i", .integer ⟨none, true, true⟩, .undef, some (.int 0), none, "I"⟩ : Param).schemaEntrySafe =
+    .ok (.obj [("type", jstr "integer"), ("title", jstr "I")]) := rfl
 
 /-! ## The full statement and its refutation -/
 
